@@ -574,11 +574,11 @@ def intermediate_check(ctx, cases):
                 continue
             n += 1
             if not close(o[0], v_ra, tol):
-                if prop == 'viscosity' and fo == 'gas':
+                if prop == 'viscosity' and fo == 'gas' and CODE['gasViscLiquidRow']:
                     key = 'single-phase-gas-viscosity-row'
                     what = ('mixed-phase particle whose flash returns gas only: FluidParticle.viscosity returns the LIQUID-row viscosity '
                             '(row [1,0]) while return_all uses the gas row')
-                elif fo == 'mix' and any(v == 0. for v in mi1):
+                elif CODE['zeroEntryTest'] and fo == 'mix' and any(v == 0. for v in mi1):
                     key = 'mixed-phase-zero-entry-branch'
                     what = ('mixed-phase particle with a zero-mass component: the individual methods take the single-phase-gas branch '
                             '(np.sum(mi[1,:] == 0) counts zero entries) and disagree with return_all')
@@ -753,12 +753,12 @@ def run(ctx, lean_ok):
             # signature of defect (a): the individual density is the GAS-ROW density of the gas phase alone, the
             # solubilities (gas-phase fugacities in both paths) agree
             sig_a = False
-            if zero_entry and 'Cs' not in dfields:
+            if CODE['zeroEntryTest'] and zero_entry and 'Cs' not in dfields:
                 for name, args, rv in res['density']['table']:
                     if name == 'density' and close(list(args[2:]), list(mi0), TOL['flash_fugacity']):
                         sig_a = close(ind[2], rv[0], 1e-12)
             # signature of defect (b): only quantities the library derives from the particle viscosity differ
-            sig_b = fo == 'gas' and dfields <= {'us', 'beta', 'beta_T'}
+            sig_b = bool(CODE['gasViscLiquidRow']) and fo == 'gas' and dfields <= {'us', 'beta', 'beta_T'}
             if sig_a:
                 vkey = 'mixed-phase-zero-entry-branch'
                 what = ('mixed-phase particle with a zero-mass component: the individual methods take the single-phase-gas branch '
